@@ -219,13 +219,14 @@ SplitDots(s) == LET ix == {i \in 1..Len(s) : IsDotC(s[i])} IN
                 IF ix = {} THEN <<s>> ELSE <<Slice(s, 1, MinOf(ix) - 1)>> \o SplitDots(From(s, MinOf(ix) + 1))
 
 NamePrepC(c) == IF c = FWX THEN 120 ELSE LowerC(c)
+tACE == S("xn--")
 PunyTab == << <<<<EAC>>, S("xn--9ca")>>, <<<<97, EAC>>, S("xn--a-bga")>>, <<<<EAC, 97>>, S("xn--a-9fa")>> >>
 ToAscii(label) ==
   IF AllAscii(label) THEN (IF LabelLenOK(label) THEN [ok |-> "ok", v |-> label] ELSE [ok |-> "err"])
   ELSE IF Has(label, SUR) THEN [ok |-> "err"]
   ELSE LET np == [i \in 1..Len(label) |-> NamePrepC(label[i])] IN
        IF AllAscii(np) THEN (IF LabelLenOK(np) THEN [ok |-> "ok", v |-> np] ELSE [ok |-> "err"])
-       ELSE IF StartsWith(np, S("xn--")) THEN [ok |-> "err"]
+       ELSE IF StartsWith(np, tACE) THEN [ok |-> "err"]
        ELSE IF \E k \in 1..Len(PunyTab) : PunyTab[k][1] = np
             THEN [ok |-> "ok", v |-> PunyTab[CHOOSE k \in 1..Len(PunyTab) : PunyTab[k][1] = np][2]]
             ELSE [ok |-> "unmodelled"]
@@ -350,9 +351,11 @@ NormFragment(f, enc) == LET e == PctEncode(f, FragmentSet, enc) IN
 (*   [oc |-> "value", net |-> FALSE, url, scheme] |                          *)
 (*   [oc |-> "value", net |-> TRUE, url, scheme, hostname, port, path, query, fragment, username, password, v6] *)
 
-HTTP == S("http")
-DefaultPort(sch) == IF sch = S("ftp") THEN 21 ELSE IF sch = S("gopher") THEN 70 ELSE IF sch = S("http") THEN 80
-                    ELSE IF sch = S("https") THEN 443 ELSE IF sch = S("ws") THEN 80 ELSE IF sch = S("wss") THEN 443 ELSE 0
+\* (text constants are 0-ary definitions: TLC evaluates them once)
+HTTP == S("http")  tFTP == S("ftp")  tGOPHER == S("gopher")  tHTTPS == S("https")  tWS == S("ws")  tWSS == S("wss")
+tCSS == S("://")   tLOCALHOST == S("localhost")
+DefaultPort(sch) == IF sch = tFTP THEN 21 ELSE IF sch = tGOPHER THEN 70 ELSE IF sch = HTTP THEN 80
+                    ELSE IF sch = tHTTPS THEN 443 ELSE IF sch = tWS THEN 80 ELSE IF sch = tWSS THEN 443 ELSE 0
 ForbiddenHostChars == {35, 37, 47, 58, 63, 64, 91, 92, 93, 32}
 VErr == [oc |-> "valueerror"]
 UnM  == [oc |-> "unmodelled"]
@@ -433,7 +436,7 @@ NormRel(url, scheme, rem0, enc) ==
     ELSE
      [oc |-> "value", net |-> TRUE, scheme |-> scheme, hostname |-> ph.hostname, port |-> port,
       path |-> np.v, query |-> nq.v, fragment |-> nf.v, username |-> username, password |-> password, v6 |-> v6,
-      url |-> scheme \o S("://")
+      url |-> scheme \o tCSS
               \o (IF Len(username) > 0 THEN UpperPct(eu.v) ELSE <<>>)
               \o (IF Len(password) > 0 THEN <<COLON>> \o UpperPct(ep.v) ELSE <<>>)
               \o (IF Len(username) > 0 \/ Len(password) > 0 THEN <<AT>> ELSE <<>>)
@@ -452,7 +455,7 @@ Norm(url0, enc) ==
    IF Len(pt[1]) = 0 THEN VErr
    ELSE
     LET st1 == IF ~pt[2] THEN <<HTTP, url>> ELSE <<LowerS(pt[1]), pt[3]>>
-        st2 == IF Has(st1[1], DOT) \/ st1[1] = S("localhost")
+        st2 == IF Has(st1[1], DOT) \/ st1[1] = tLOCALHOST
                THEN <<HTTP, st1[1] \o <<COLON>> \o st1[2]>> ELSE st1
     IN IF DefaultPort(st2[1]) = 0
        THEN [oc |-> "value", net |-> FALSE, url |-> url, scheme |-> st2[1]]
@@ -636,9 +639,9 @@ HostCat == <<
   H(<<>>, "empty", 0) >>
 
 PC(t, k) == [t |-> t, k |-> k]
-PortCat(dp) == <<
+PortCat0 == <<
   PC(<<>>, "none"),
-  PC(<<COLON>> \o dp, "default"),
+  PC(<<COLON>>, "default"),               \* + the scheme's default port
   PC(S(":81"), "other"),
   PC(S(":0"), "zero"),
   PC(S(":65535"), "max"),
@@ -647,10 +650,13 @@ PortCat(dp) == <<
   PC(S(":"), "empty"),
   PC(S(":a"), "alpha"),
   PC(S(":8a"), "mixed"),
-  PC(S(":0") \o dp, "leading-zero-default"),
+  PC(S(":0"), "leading-zero-default"),    \* + the scheme's default port
   PC(S(": 81"), "space"),
   PC(S(":+81"), "plus"),
   PC(S(":81:82"), "two-ports") >>
+NPorts == Len(PortCat0)
+PortAt(dp, j) == IF PortCat0[j].k \in {"default", "leading-zero-default"} THEN PC(PortCat0[j].t \o dp, PortCat0[j].k)
+                 ELSE PortCat0[j]
 
 SegCat == << S("a"), S("A"), S("."), S(".."), <<>>, S("%2e"), S("%2E%2e"), S("%2F"), S("%aF"), <<EAC>>, S("a b"), S("x;y") >>
 SegKind == << "plain", "upper", "dot", "dotdot", "empty", "escaped-dot", "escaped-dotdot", "escaped-slash",
@@ -680,6 +686,7 @@ EscCase(s, F(_)) == [i \in 1..Len(s) |->
                          \/ (i >= 3 /\ s[i - 2] = PCT /\ IsHex(s[i - 1]) /\ IsHex(s[i]))
                       THEN F(s[i]) ELSE s[i]]
 
+tDOTSEG == S("/.")  tDDSEG == S("/x/..")  tFRAG == S("#f")
 FirstOfGroup(g) == CHOOSE i \in 1..Len(HostCat) : HostCat[i].g = g /\ \A j \in 1..(i - 1) : HostCat[j].g # g
 
 \* Variants(b): respellings that C10 says normalise to the same string, as <<kind, text>>
@@ -690,7 +697,7 @@ Variants(b) ==
       RECURSIVE Nots(_)
       Nots(I) == IF I = {} THEN <<>>
                  ELSE LET i == MinOf(I) IN
-                      << <<"notation:" \o HostCat[i].k, Render([b EXCEPT !.ho = HostCat[i].t])>> >> \o Nots(I \ {i})
+                      << <<"notation", Render([b EXCEPT !.ho = HostCat[i].t])>> >> \o Nots(I \ {i})
   IN IF Len(b.ho) = 0 \/ (~Has(b.sc, COLON) /\ b.pk # "none")
      THEN <<>>       \* without a host, or "host:port" without a scheme, the structure is not what the parser sees
      ELSE
@@ -698,9 +705,9 @@ Variants(b) ==
      \o (IF b.pk = "none" /\ Len(b.dp) > 0 /\ Has(b.sc, COLON) THEN   \* (without a scheme, "h:80" reads as scheme "h")
          V("default-port", Render([b EXCEPT !.po = <<COLON>> \o b.dp])) ELSE <<>>)
      \o (IF StartsWith(b.pa, <<SLASH>>)
-         THEN V("dot-segment", Render([b EXCEPT !.pa = S("/.") \o @])) \o V("dotdot-segment", Render([b EXCEPT !.pa = S("/x/..") \o @]))
+         THEN V("dot-segment", Render([b EXCEPT !.pa = tDOTSEG \o @])) \o V("dotdot-segment", Render([b EXCEPT !.pa = tDDSEG \o @]))
          ELSE <<>>)
-     \o (IF ~Has(b.qf, HASH) THEN V("fragment", Render(b) \o S("#f")) ELSE <<>>)
+     \o (IF ~Has(b.qf, HASH) THEN V("fragment", Render(b) \o tFRAG) ELSE <<>>)
      \o V("escape-lower", Render([b EXCEPT !.pa = EscCase(@, LowerC), !.qf = EscCase(@, LowerC)]))
      \o V("escape-upper", Render([b EXCEPT !.pa = EscCase(@, UpperC), !.qf = EscCase(@, UpperC)]))
      \o Nots(others)
